@@ -213,7 +213,7 @@ theorem mem_dedup (l : List Nat) (y : Nat) : y ∈ dedup l → y ∈ l := by
     | inl h => simp [h]
     | inr h => exact List.mem_cons_of_mem _ (ih h.1)
 
-theorem hasRef_of_attr (a : Attrs) (k v u : Str) (hk : aget a k = some v)
+theorem hasRef_of_attr (a : Attrs) (k v u : Str) (hk : aget a k = some v) (hne : k ≠ hrefName)
     (hinf : ('#' :: u) <:+: v) : hasRef a u = true := by
   unfold hasRef
   simp only [List.any_eq_true]
@@ -234,7 +234,7 @@ theorem hasRef_of_attr (a : Attrs) (k v u : Str) (hk : aget a k = some v)
       | false =>
         rw [hkk] at hk
         exact List.mem_cons_of_mem _ (ih hk)
-  exact ⟨(k, v), hm, (isInfix_iff _ _).mpr hinf⟩
+  exact ⟨(k, v), hm, by simp [hne, (isInfix_iff _ _).mpr hinf]⟩
 
 theorem mem_childrenOf (nodes : List Node) (i j : Nat) (h : j ∈ childrenOf nodes i) :
     ∃ n, nodes[j]? = some n ∧ n.parent = some i := by
@@ -273,7 +273,7 @@ theorem target_spelled (nodes : List Node) (rels : Nat → List Rel) (hshape : L
       have h1 : ('#' :: ref) <:+: w := (afterLast_suffix '#' w ref hwr).isInfix
       have h2 : w <:+: v := words_infix v w hw
       rw [huid]
-      exact hasRef_of_attr _ a v ref hv (h1.trans h2)
+      exact hasRef_of_attr _ a v ref hv ((hshape.nohref i r hr).1 a hk) (h1.trans h2)
   | child tag xt follow =>
     rw [hk] at hts
     simp only at hts
@@ -302,7 +302,7 @@ theorem target_spelled (nodes : List Node) (rels : Nat → List Rel) (hshape : L
           simp only [Bool.false_eq_true, if_false, Option.some.injEq] at hjr
           have hne : l ≠ [] := by
             intro h0; apply he; simp [h0]
-          have hhash : '#' ∈ l := hshape i r tag xt follow hr hk j hj l hl hne
+          have hhash : '#' ∈ l := hshape.hash i r tag xt follow hr hk j hj l hl hne
           have hsome := afterLast_isSome '#' l hhash
           cases hal : afterLast '#' l with
           | none => rw [hal] at hsome; simp at hsome
@@ -315,7 +315,7 @@ theorem target_spelled (nodes : List Node) (rels : Nat → List Rel) (hshape : L
             simp only [List.any_eq_true]
             refine ⟨j, hj, ?_⟩
             rw [huid]
-            exact hasRef_of_attr _ follow l r0 hl h1
+            exact hasRef_of_attr _ follow l r0 hl ((hshape.nohref i r hr).2 tag xt follow hk) h1
 
 theorem idxOf?_isSome (l : List Nat) (y k : Nat) (h : idxOf? l y = some k) : y ∈ l := by
   unfold idxOf? at h
